@@ -250,8 +250,10 @@ def rule_identity_preserving_cache(ctx: Ctx) -> None:
             sets += [st for st in ast.walk(cc.node) if isinstance(st, ast.Assign) and any(isinstance(t, ast.Subscript) and isinstance(t.slice, ast.Constant) and t.slice.value == sw for t in st.targets)]
             vals = [k.value for k in direct] + [c.args[1] for c in sets if isinstance(c, ast.Call) and len(c.args) > 1] + [st.value for st in sets if isinstance(st, ast.Assign)]
             vals += [v_ for d_ in ast.walk(cc.node) if isinstance(d_, ast.Dict) for k_, v_ in zip(d_.keys, d_.values) if isinstance(k_, ast.Constant) and k_.value == sw]
+            # a table of (option, default) pairs that a loop applies: `for option, default in (("lru_shared", not lazy), ...): kw.setdefault(option, default)`
+            vals += [t.elts[1] for t in ast.walk(cc.node) if isinstance(t, ast.Tuple) and len(t.elts) == 2 and isinstance(t.elts[0], ast.Constant) and t.elts[0].value == sw]
             from_lazy = any(isinstance(x, ast.Name) and x.id == "lazy" for v in vals for x in ast.walk(d_cc.resolve(v)))
-            dyn = any(isinstance(c, ast.Call) and isinstance(c.func, ast.Attribute) and c.func.attr == "update" for c in ast.walk(cc.node)) or any(
+            dyn = any(isinstance(c, ast.Call) and isinstance(c.func, ast.Attribute) and (c.func.attr == "update" or (c.func.attr == "setdefault" and c.args and not isinstance(c.args[0], ast.Constant))) for c in ast.walk(cc.node)) or any(
                 isinstance(t, ast.Subscript) and not isinstance(t.slice, ast.Constant) for st in ast.walk(cc.node) if isinstance(st, ast.Assign) for t in st.targets)
             ctx.tri("3-shared", cc, r, from_lazy, not vals and not dyn, f"{norm(r.value.func)}: `{sw}` defaults to `not lazy` (deferred nodes are cached by identity, not pickled)",
                     f"{norm(r.value.func)}(...) is built without deriving `{sw}` from `lazy`: the class default (values pickled) applies to lazy pipelines too, every cache hit returns a COPY of the deferred node "
